@@ -1,41 +1,20 @@
-import ScrapliModel.Gen.C05Tables
-import ScrapliModel.Spec.PromptGrammar
+import ScrapliModel.C05Suite_iosxe
+import ScrapliModel.C05Suite_iosxr
+import ScrapliModel.C05Suite_nxos
+import ScrapliModel.C05Suite_nxosS
+import ScrapliModel.C05Suite_eos
+import ScrapliModel.C05Suite_eosS
+import ScrapliModel.C05Suite_junos
 /-
-  C05: which prompt grammar (Spec) is checked against which generated privilege table.
-  A suite = one constructed driver (table) + the modes its device can be in.
-  Obligation `<suite>.<mode index>.incl|disj` is the emptiness of `inclOb` / `disjOb`.
+  C05: registry of all suites (used by the model driver Drv/C05.lean and by the summary file).
+  The suites themselves live in `C05Suite_<table>.lean`, one file per generated table, so that a
+  change of one platform's patterns re-checks only that platform's obligations.
 -/
 namespace Scrapli.C05
-open Scrapli.Regex Scrapli.PromptClass Scrapli.Spec
-
-structure Suite where
-  name : String
-  table : Table
-  modes : List Mode
-
-def iosxe : Suite := ⟨"iosxe", Gen.C05.iosxe, PromptGrammar.iosxe⟩
-def iosxr : Suite := ⟨"iosxr", Gen.C05.iosxr, PromptGrammar.iosxr⟩
-def nxos : Suite := ⟨"nxos", Gen.C05.nxos, PromptGrammar.nxos⟩
-def nxosS : Suite := ⟨"nxosS", Gen.C05.nxosS, PromptGrammar.nxosS Gen.C05.nxosSessions⟩
-def eos : Suite := ⟨"eos", Gen.C05.eos, PromptGrammar.eos⟩
-def eosS : Suite := ⟨"eosS", Gen.C05.eosS, PromptGrammar.eosS Gen.C05.eosSessions⟩
-def junos : Suite := ⟨"junos", Gen.C05.junos, PromptGrammar.junos⟩
-/-- the modes whose grammar is restricted by the predicate of an open finding, WITHOUT the restriction
-    (the obligations that fail on the unchanged tree carry machine-checked witnesses) -/
-def junosFull : Suite := ⟨"junosFull", Gen.C05.junos, PromptGrammar.junosFull⟩
-def nxosFull : Suite := ⟨"nxosFull", Gen.C05.nxos, PromptGrammar.nxosFull⟩
-def nxosSFull : Suite := ⟨"nxosSFull", Gen.C05.nxosS, PromptGrammar.nxosSFull⟩
-def eosSFull : Suite := ⟨"eosSFull", Gen.C05.eosS, PromptGrammar.eosSFull Gen.C05.eosSessions⟩
+open Scrapli.Regex Scrapli.PromptClass
 
 def suites : List Suite := [iosxe, iosxr, nxos, nxosS, eos, eosS, junos, junosFull, nxosFull, nxosSFull, eosSFull]
 
 def suite (n : String) : Suite := (suites.find? (·.name == n)).getD ⟨"", ⟨"", [], .emp⟩, []⟩
-
-/-- obligation 0: detection, 1: classified by the whole share group, 2: by no other level -/
-def Suite.ob (s : Suite) (i k : Nat) : RE :=
-  match k with
-  | 0 => detOb s.table (nthMode s.modes i)
-  | 1 => ownOb s.table (nthMode s.modes i)
-  | _ => forOb s.table (nthMode s.modes i)
 
 end Scrapli.C05
